@@ -688,6 +688,18 @@ bool Token::Match(const Token *tok, const char pattern[], nonneg int varid)
                 continue;
             }
 
+            // "int|void|" (empty alternative) also accepts "no token", as documented
+            // and as the match compiler generates it
+            if (p[0] != '|' && !(p[0] == '[' && chrInFirstWord(p, ']'))) {
+                const char *e = p;
+                while (*e && *e != ' ')
+                    ++e;
+                if (e[-1] == '|') {
+                    p = e;
+                    continue;
+                }
+            }
+
             return false;
         }
 
